@@ -4,9 +4,11 @@
   Part 1 (`MeddlyModel/Ops/ErrorsTable.lean`).  `precheck`: the DECISION TABLE of the library's operation
   constructors and factories, transcribed from `/repo/src/operations/*.cc` in the ORDER in which the code
   performs its tests; `compatible`: an independent, declarative statement of each operation's documented
-  requirements; `lax`: the documented requirements the code does not enforce; `crashTag`: where the
-  unchanged library crashes instead of raising an error.  The table is finite; it is evaluated in the
-  kernel over ALL rows and lifted here to every legal forest kind.
+  requirements; `lax`: the documented requirements the code does not enforce.  The table is finite; it is
+  evaluated in the kernel over ALL rows and lifted here to every legal forest kind.  (An earlier revision
+  also carried `crashTag`, the rows on which the library crashed instead of raising an error — findings
+  F1..F6 of docs/NOTES_errors.md.  All of them are repaired in the library; the model has no crash outcome
+  and no row is withheld from execution any more.)
 
   Part 2 (this file).  Why an operation that is aborted by an error raised at ANY depth of its recursion
   cannot change a function that somebody holds: operations only ADD nodes (fresh handles) to the node
@@ -25,28 +27,6 @@ import MeddlyModel.Props.C19
 
 namespace Meddly
 namespace Errors
-
-/-! ## Part 1c: where the unchanged library crashes instead of raising an error (FINDINGS)
-
-`crashTag` classifies, declaratively, the rows of the table on which the harness must not let the library
-compute: `F1` the constructor itself dereferences a null pointer (`precheck = some CRASH`); `F2`–`F6` the
-constructors accept the call and the computation then crashes for some or all operand values.  The
-harness has the same classification; the acceptor cross-checks both on every row, and `--probe 1`
-reproduces each class in a forked child. -/
-
-def crashTag (op : OpKind) (ka kb kc : ForestKind) (sd : Bool) : Option String :=
-  match precheck op ka kb kc sd with
-  | some .CRASH => some "F1-nofs-null-image"
-  | some _ => none
-  | none =>
-    if op.isReach then
-      if ka != kc then some "F2-reach-foreign-result"
-      else if op.isSatur && kb.range != .bool then some "F4-satur-nonbool-relation"
-      else none
-    else if op == .INTERSECTION && ka.range != kb.range then some "F5-intersection-mixed-range"
-    else if (op == .PRE_IMAGE || op == .POST_IMAGE) && kc.lab == .mt && kc.range == .int && ka != kc then
-      some "F6-image-distance-foreign-operand"
-    else none
 
 /-! ## Values that fit an integer terminal, scripted misuse -/
 
@@ -82,9 +62,16 @@ def misuseExpect : String → Option String
   | "destroyed-result" => some "err NOT_IMPLEMENTED"
   | "destroyed-copy" => some "err NOT_IMPLEMENTED"
   | "destroyed-evaluate" => some "err FOREST_MISMATCH"
-  -- FINDING F8 (probe only): `binary_operation::compute` does not test that the result edge belongs to
-  -- the operation's result forest; error.h documents FOREST_MISMATCH for "requires same forest"
+  -- an operation object applied to an edge of another forest than the one it was built for; error.h documents
+  -- FOREST_MISMATCH for "requires same forest".  Former finding F8 (no test at all, SIGSEGV): the result edge
+  -- of a binary operation and both edges of a unary operation are tested since the repair ...
   | "compute-foreign-result" => some "err FOREST_MISMATCH"
+  | "compute-foreign-unary-result" => some "err FOREST_MISMATCH"
+  | "compute-foreign-unary-operand" => some "err FOREST_MISMATCH"
+  -- ... the OPERAND edges of a binary operation still are not (KNOWN FINDING F8b, reproduced once per run by
+  -- case 99 of the harness; the expectation stays the documented one, so the DIFF line ends when the library
+  -- tests them)
+  | "compute-foreign-operand" => some "err FOREST_MISMATCH"
   | _ => none
 
 
@@ -290,68 +277,73 @@ end applyE2
 
 section table
 
-variable (op : OpKind) (ka kb kc : ForestKind) (sd : Bool)
+variable (op : OpKind) (ka kb kc : ForestKind) (dp : Doms)
 
-/-- every row of the table over legal forest kinds satisfies the six facts of `goodCore` -/
+/-- every row of the table over legal forest kinds satisfies the five facts of `goodCore` -/
 theorem row_good (ha : ka.legal = true) (hb : kb.legal = true) (hc : kc.legal = true) :
-    goodCore (precheck op ka kb kc sd) (compatibleA op ka.abs kb.abs kc.abs sd (ka == kc))
-      (lax op ka kb kc sd) (compatibleA op ka.abs kb.abs kc.abs true (ka == kc)) op.isNoFS
-      (decide (2 ≤ op.forests)) sd = true :=
-  goodA_all op ka.abs kb.abs kc.abs (abs_legal ha) (abs_legal hb) (abs_legal hc) sd (ka == kc)
+    goodCore (precheck op ka kb kc dp) (compatibleA op ka.abs kb.abs kc.abs dp.allSame (ka == kc))
+      (lax op ka kb kc dp.allSame) (compatibleA op ka.abs kb.abs kc.abs true (ka == kc))
+      (decide (2 ≤ op.forests)) dp.allSame = true :=
+  goodA_all op ka.abs kb.abs kc.abs (abs_legal ha) (abs_legal hb) (abs_legal hc) dp (ka == kc)
 
 /-
   Full-strength statement asked for, NOT true of the code that exists:
 
-      theorem precheck_total : ¬ compatible op ka kb kc sd → precheck op ka kb kc sd ≠ none
+      theorem precheck_total : ¬ compatible op ka kb kc dp.allSame → precheck op ka kb kc dp ≠ none
 
   It fails exactly on the calls described by `lax` (`lax_exact` below): documented requirements that no
   constructor tests — arithmetic on Boolean forests, comparison of index sets, a non-Boolean relation
   handed to an image / reachability operation, a reachability result outside the first operand's forest,
-  vector-matrix products over non-MT vectors or mixed ranges.  What is missing for the full statement is
-  the corresponding tests in the library (see FINDINGS in NOTES.md).
+  vector-matrix products over mixed ranges.  What is missing for the full statement is the corresponding
+  tests in the library (see NOTES.md).  None of these accepted calls crashes the library (every accepted
+  row is computed by the harness).
+
+  `dp : Doms` says how the forests of the call are spread over domains (`dp.allSame`: one domain); the
+  documented requirements (`compatible`, `lax`) only ask whether it is one domain.
 -/
 
 /-- C16 (partial): a call that violates a documented requirement on the forests is refused by the
     constructor or factory with an error code — unless it belongs to the exactly characterised class `lax`
     of requirements the code never tests. -/
 theorem precheck_total_partial (ha : ka.legal = true) (hb : kb.legal = true) (hc : kc.legal = true)
-    (h : ¬ compatible op ka kb kc sd) (hl : lax op ka kb kc sd = false) :
-    precheck op ka kb kc sd ≠ none := by
-  have g := row_good op ka kb kc sd ha hb hc
+    (h : ¬ compatible op ka kb kc dp.allSame) (hl : lax op ka kb kc dp.allSame = false) :
+    precheck op ka kb kc dp ≠ none := by
+  have g := row_good op ka kb kc dp ha hb hc
   unfold compatible at h
   intro hp
   rw [hp, hl] at g
   simp [goodCore] at g
   exact h g.1
 
-example : precheck .UNION ⟨false, .bool, .mt, .fully⟩ ⟨true, .bool, .mt, .ident⟩ ⟨false, .bool, .mt, .fully⟩ true
+example : precheck .UNION ⟨false, .bool, .mt, .fully⟩ ⟨true, .bool, .mt, .ident⟩ ⟨false, .bool, .mt, .fully⟩ .same
     = some .TYPE_MISMATCH := by decide
 
 /-- C16: every call the constructors accept either satisfies the documented requirements or belongs to
     `lax` (the contrapositive reading of `precheck_total_partial`). -/
 theorem precheck_sound_partial (ha : ka.legal = true) (hb : kb.legal = true) (hc : kc.legal = true)
-    (h : precheck op ka kb kc sd = none) (hl : lax op ka kb kc sd = false) :
-    compatible op ka kb kc sd :=
-  Classical.byContradiction fun hn => precheck_total_partial op ka kb kc sd ha hb hc hn hl h
+    (h : precheck op ka kb kc dp = none) (hl : lax op ka kb kc dp.allSame = false) :
+    compatible op ka kb kc dp.allSame :=
+  Classical.byContradiction fun hn => precheck_total_partial op ka kb kc dp ha hb hc hn hl h
 
-example : precheck .PLUS ⟨false, .int, .evp, .fully⟩ ⟨false, .int, .evp, .quasi⟩ ⟨false, .int, .evp, .fully⟩ true
+example : precheck .PLUS ⟨false, .int, .evp, .fully⟩ ⟨false, .int, .evp, .quasi⟩ ⟨false, .int, .evp, .fully⟩ .same
     = none := by decide
 
 /-- C16: `lax` is EXACTLY the set of calls that violate a documented requirement and are accepted all the
     same — the complete list of unenforced preconditions of the catalogue. -/
 theorem lax_exact (ha : ka.legal = true) (hb : kb.legal = true) (hc : kc.legal = true) :
-    lax op ka kb kc sd = true ↔ (¬ compatible op ka kb kc sd ∧ precheck op ka kb kc sd = none) := by
-  have g := row_good op ka kb kc sd ha hb hc
+    lax op ka kb kc dp.allSame = true ↔
+      (¬ compatible op ka kb kc dp.allSame ∧ precheck op ka kb kc dp = none) := by
+  have g := row_good op ka kb kc dp ha hb hc
   unfold compatible
-  cases hp : precheck op ka kb kc sd with
+  cases hp : precheck op ka kb kc dp with
   | none =>
     rw [hp] at g
     simp [goodCore] at g
-    cases hcp : compatibleA op ka.abs kb.abs kc.abs sd (ka == kc) <;> simp [hcp] at g ⊢ <;> exact g.1
+    cases hcp : compatibleA op ka.abs kb.abs kc.abs dp.allSame (ka == kc) <;> simp [hcp] at g ⊢ <;> exact g.1
   | some e =>
     rw [hp] at g
-    have hl : lax op ka kb kc sd = false := by
-      cases e <;> simp [goodCore] at g <;> first | exact g.1.1.1 | exact g.1.1 | exact g.1
+    have hl : lax op ka kb kc dp.allSame = false := by
+      cases e <;> simp [goodCore] at g <;> first | exact g.1.1 | exact g.1
     simp [hl]
 
 example : lax .PLUS ⟨false, .bool, .mt, .fully⟩ ⟨false, .bool, .mt, .fully⟩ ⟨false, .bool, .mt, .fully⟩ true
@@ -360,56 +352,64 @@ example : lax .PLUS ⟨false, .bool, .mt, .fully⟩ ⟨false, .bool, .mt, .fully
 /-- C16 (converse direction): every call that satisfies the documented requirements is accepted: the
     constructors never refuse a legitimate call. -/
 theorem precheck_complete (ha : ka.legal = true) (hb : kb.legal = true) (hc : kc.legal = true)
-    (h : compatible op ka kb kc sd) : precheck op ka kb kc sd = none := by
-  have g := row_good op ka kb kc sd ha hb hc
+    (h : compatible op ka kb kc dp.allSame) : precheck op ka kb kc dp = none := by
+  have g := row_good op ka kb kc dp ha hb hc
   unfold compatible at h
   rw [h] at g
-  cases hp : precheck op ka kb kc sd with
+  cases hp : precheck op ka kb kc dp with
   | none => rfl
   | some e => rw [hp] at g; cases e <;> simp [goodCore] at g
 
 example : compatible .PRE_IMAGE ⟨false, .int, .mt, .fully⟩ ⟨true, .bool, .mt, .ident⟩ ⟨false, .int, .mt, .fully⟩ true := by
   decide
 
-/-- C16 (FINDING F1 delimited): a constructor of the catalogue can only crash in REACHABLE_TRAD_NOFS, and
-    only on calls that violate the documented requirements; every other refusal is an error code. -/
-theorem crash_only_nofs (ha : ka.legal = true) (hb : kb.legal = true) (hc : kc.legal = true)
-    (h : precheck op ka kb kc sd = some .CRASH) : op.isNoFS = true ∧ ¬ compatible op ka kb kc sd := by
-  have g := row_good op ka kb kc sd ha hb hc
-  unfold compatible
-  rw [h] at g
-  simp [goodCore] at g
-  exact ⟨g.1.2, by simp [g.1.1.2]⟩
-
+/-- C16 (former finding F1, repaired): the call on which the REACHABLE_TRAD_NOFS factory used to dereference
+    a null image operation is refused with NOT_IMPLEMENTED, like every other combination no image operation
+    exists for. -/
 example : precheck .REACHABLE_TRAD_NOFS_FWD ⟨false, .int, .idx, .fully⟩ ⟨true, .bool, .mt, .ident⟩
-    ⟨false, .bool, .mt, .fully⟩ true = some .CRASH := by decide
+    ⟨false, .int, .mt, .quasi⟩ .same = some .NOT_IMPLEMENTED := by decide
+
+/-- C16 (former finding F2, repaired): a reachability result in another forest than the initial set is
+    accepted (and computed); it stays listed in `lax` because ops_builtin.h still asks for the same forest. -/
+example : precheck .REACHABLE_TRAD_FS_FWD ⟨false, .bool, .mt, .fully⟩ ⟨true, .bool, .mt, .ident⟩
+    ⟨false, .bool, .mt, .quasi⟩ .same = none ∧
+    lax .REACHABLE_TRAD_FS_FWD ⟨false, .bool, .mt, .fully⟩ ⟨true, .bool, .mt, .ident⟩
+    ⟨false, .bool, .mt, .quasi⟩ true = true := by decide
+
+/-- the order of the tests is observable: with only the first operand in another domain the traditional
+    reachability factories meet the shape of the relation before the first operand's domain -/
+example : precheck .REACHABLE_TRAD_NOFS_BWD ⟨false, .bool, .mt, .fully⟩ ⟨false, .bool, .mt, .fully⟩
+    ⟨false, .bool, .mt, .fully⟩ .firstOnly = some .TYPE_MISMATCH ∧
+    precheck .REACHABLE_TRAD_NOFS_BWD ⟨false, .bool, .mt, .fully⟩ ⟨false, .bool, .mt, .fully⟩
+    ⟨false, .bool, .mt, .fully⟩ .split = some .DOMAIN_MISMATCH := by decide
 
 /-- C16: the constructors report DOMAIN_MISMATCH only when the forests really live in different domains,
-    and raise no code other than DOMAIN_MISMATCH, TYPE_MISMATCH and NOT_IMPLEMENTED. -/
+    and raise no code other than DOMAIN_MISMATCH, TYPE_MISMATCH and NOT_IMPLEMENTED (in particular, no
+    outcome of the table is a crash). -/
 theorem codes_documented (ha : ka.legal = true) (hb : kb.legal = true) (hc : kc.legal = true)
-    (e : ErrCode) (h : precheck op ka kb kc sd = some e) :
-    (e = .DOMAIN_MISMATCH → sd = false) ∧
-    (e = .DOMAIN_MISMATCH ∨ e = .TYPE_MISMATCH ∨ e = .NOT_IMPLEMENTED ∨ e = .CRASH) := by
-  have g := row_good op ka kb kc sd ha hb hc
+    (e : ErrCode) (h : precheck op ka kb kc dp = some e) :
+    (e = .DOMAIN_MISMATCH → dp.allSame = false) ∧
+    (e = .DOMAIN_MISMATCH ∨ e = .TYPE_MISMATCH ∨ e = .NOT_IMPLEMENTED) := by
+  have g := row_good op ka kb kc dp ha hb hc
   rw [h] at g
   cases e <;> simp [goodCore] at g <;> simp [g]
 
-example : precheck .COPY ⟨false, .int, .mt, .fully⟩ ⟨false, .int, .mt, .fully⟩ ⟨true, .int, .mt, .ident⟩ false
+example : precheck .COPY ⟨false, .int, .mt, .fully⟩ ⟨false, .int, .mt, .fully⟩ ⟨true, .int, .mt, .ident⟩ .split
     = some .TYPE_MISMATCH := by decide
 
-/-- C16: a call whose ONLY defect is that the forests belong to different domains is reported as
-    DOMAIN_MISMATCH (not as some other code, and not accepted). -/
+/-- C16: a call whose ONLY defect is that the forests belong to different domains — however they are
+    spread — is reported as DOMAIN_MISMATCH (not as some other code, and not accepted). -/
 theorem domain_only (ha : ka.legal = true) (hb : kb.legal = true) (hc : kc.legal = true)
-    (h2 : 2 ≤ op.forests) (h : compatible op ka kb kc true) :
-    precheck op ka kb kc false = some .DOMAIN_MISMATCH := by
-  have g := row_good op ka kb kc false ha hb hc
+    (h2 : 2 ≤ op.forests) (h : compatible op ka kb kc true) (hd : dp.allSame = false) :
+    precheck op ka kb kc dp = some .DOMAIN_MISMATCH := by
+  have g := row_good op ka kb kc dp ha hb hc
   unfold compatible at h
-  rw [h] at g
-  cases hp : precheck op ka kb kc false with
+  rw [h, hd] at g
+  cases hp : precheck op ka kb kc dp with
   | none => rw [hp] at g; simp [goodCore, h2] at g
   | some e => rw [hp] at g; cases e <;> simp [goodCore, h2] at g <;> rfl
 
-example : precheck .DIVIDE ⟨true, .real, .evt, .ident⟩ ⟨true, .real, .evt, .ident⟩ ⟨true, .real, .evt, .ident⟩ false
+example : precheck .DIVIDE ⟨true, .real, .evt, .ident⟩ ⟨true, .real, .evt, .ident⟩ ⟨true, .real, .evt, .ident⟩ .split
     = some .DOMAIN_MISMATCH := by decide
 
 end table
@@ -516,7 +516,6 @@ end applyEprops
 'Meddly.Errors.precheck_sound_partial' depends on axioms: [propext, Classical.choice, Quot.sound]
 'Meddly.Errors.lax_exact' depends on axioms: [propext, Quot.sound]
 'Meddly.Errors.precheck_complete' depends on axioms: [propext, Quot.sound]
-'Meddly.Errors.crash_only_nofs' depends on axioms: [propext, Quot.sound]
 'Meddly.Errors.codes_documented' depends on axioms: [propext, Quot.sound]
 'Meddly.Errors.domain_only' depends on axioms: [propext, Quot.sound]
 'Meddly.Errors.insert_monotone' depends on axioms: [propext, Classical.choice, Quot.sound]
